@@ -407,9 +407,21 @@ def check_abort_wiring(chk, ix):
             o1 = it.call_function(cur, ctx.lookup("_push"), ["scenario"], {}, None, self_val=c) if ctx.lookup("_push") else [(cur, "val", None)]
             if len(o1) != 1 or o1[0][1] != "val":
                 raise AnalysisError("Context._push not evaluable: %r" % ([(k, v) for _, k, v in o1][:2],))
-            o2 = it.call_function(o1[0][0], ctx.lookup("abort"), [], {"reason": "user"}, None, self_val=c)
+            cur = o1[0][0]
+            target, recv = ctx.lookup("abort"), c
         else:
-            o2 = it.call_function(cur, mr.lookup("abort"), [], {"reason": "user"}, None, self_val=runner)
+            target, recv = mr.lookup("abort"), runner
+        try:
+            o2 = it.call_function(cur, target, [], {"reason": "user"}, None, self_val=recv)
+        except AnalysisError as e:
+            if "unexpected kwargs" not in str(e):
+                raise
+            # Python raises TypeError here: abort(reason=...) is how run_hook and ModelRunner.abort call it
+            chk.instance("V7")
+            fail(target, "%s(reason=...) is a TypeError" % via.split("(")[0],
+                 "%s: %s - the documented call abort(reason=...) (made by ModelRunner.abort and from run_hook's exception handler for "
+                 "before_all / after_all failures) raises a TypeError instead of aborting the run" % (via, e))
+            continue
         if len(o2) != 1 or o2[0][1] != "val":
             raise AnalysisError("%s not evaluable: %r" % (via, [(k, v) for _, k, v in o2][:2]))
         cur, after = read(o2[0][0])
